@@ -15,7 +15,9 @@ TABLE = {
             ('OpyVerif.Proofs.InitCode', 'Opy', None), ('OpyVerif.Generated.Init', 'Opy.Gen', None),
             ('OpyVerif.Generated.FormulasC18', 'Opy.Gen', r'uniformWrapper_eq|gaussianWrapper_eq'),
             ('OpyVerif.Proofs.TaskRun', 'Opy', r'^(goodBody_pattern|good_pattern|exec_body|task_evals_inBox|task_best_inBox|task_best_evaluated)$'),
-            ('OpyVerif.Proofs.TaskRunCode', 'Opy', r'code_task_evals_in|code_task_best_inBox|clipsInto|code_taskSkeletons_good|code_taskSweeps_plain'),
+            ('OpyVerif.Proofs.TaskRunCodeBox', 'Opy', r'code_task_evals_in|clipsInto'), ('OpyVerif.Proofs.TaskRunCodeSkel', 'Opy', r'code_taskSkeletons_good'),
+            ('OpyVerif.Proofs.TaskRunCode', 'Opy', r'code_task_best_inBox|code_taskSweeps_plain'),
+            ('OpyVerif.Proofs.TaskAnyTrial', 'Opy', r'^(anyUpdate_spec|scan_append|scan_runSkel|scan_sound|task_all_evals_inBox|code_task_all_evals_inBox|code_anyTrial_ok)$'),
             ('OpyVerif.Proofs.TaskTrial', 'Opy', r'^(trialStep_evals_inBox|greedyUpdate_evals_inBox|task_greedy)$'),
             ('OpyVerif.Proofs.TaskTrialCode', 'Opy', r'code_trial_evals_inBox|code_trialSites_ok|code_task_greedy')],
     'C02': [('OpyVerif.Proofs.C02', 'Opy', None),
@@ -38,15 +40,16 @@ TABLE = {
             ('OpyVerif.Generated.Skeletons', 'Opy.Gen', r'skel_\w+_good'),
             ('OpyVerif.Proofs.C18real', 'Opy', r'index_draw_range'),
             ('OpyVerif.Proofs.TaskRun', 'Opy', r'^(goodBody_pattern|good_pattern|exec_body|exec_pre|task_logs|task_sweep_calls)$'),
-            ('OpyVerif.Proofs.TaskRunCode', 'Opy', r'code_task_logs|code_task_sweep_calls|code_taskSkeletons_good|code_taskSweeps_plain')],
+            ('OpyVerif.Proofs.TaskRunCodeSkel', 'Opy', r'code_task_logs|code_task_sweep_calls|code_taskSkeletons_good'),
+            ('OpyVerif.Proofs.TaskRunCode', 'Opy', r'code_taskSweeps_plain')],
     'C04': [('OpyVerif.Proofs.C04', 'Opy', r'dump|lookup_appendAttr'),
             ('OpyVerif.Generated.Ops', 'Opy.Gen', r'dumpSkips_spec|dump_guard_known|parseRules_spec'),
             ('OpyVerif.Proofs.C19', 'Opy', r'dump_series'),
             ('OpyVerif.Generated.Constants', 'Opy.Gen', r'historyKeys_eq'),
             ('OpyVerif.Generated.Skeletons', 'Opy.Gen', r'skel_\w+_good'),
             ('OpyVerif.Proofs.HistCode', 'Opy', r'code_start_time'), ('OpyVerif.Generated.HistProg', 'Opy.Gen', r'startProg_eq'),
-            ('OpyVerif.Proofs.TaskRun', 'Opy', r'^(good_pattern|exec_body|task_logs|task_last_dump)$'),
-            ('OpyVerif.Proofs.TaskRunCode', 'Opy', r'code_task_logs|code_task_last_dump|code_taskSkeletons_good')],
+            ('OpyVerif.Proofs.TaskRun', 'Opy', r'^(good_pattern|exec_body|task_logs|task_last_dump|task_dumps_append|task_dumps_prefix)$'),
+            ('OpyVerif.Proofs.TaskRunCodeSkel', 'Opy', r'code_task_logs|code_task_last_dump|code_task_dumps_prefix|code_taskSkeletons_good')],
     'C05': [('OpyVerif.Proofs.C05', 'Opy', None), ('OpyVerif.Proofs.C05code', 'Opy', None),
             ('OpyVerif.Model.EffectSites', 'Opy', None), ('OpyVerif.Generated.Effects', 'Opy.Gen', None)],
     'C06': [('OpyVerif.Proofs.C06', 'Opy', None),
